@@ -150,6 +150,14 @@ fn parse_const<'a, 'b, const I: usize, T: ArithParsable>(
     expr: &'b str,
 ) -> IResult<&'b str, Expr<'a, I, T>, String> {
     match double::<_, Error<&str>>(expr) {
+        // `double` also accepts the words `inf`, `infinity` and `nan` in any case. When such a word is
+        // only the beginning of a longer name (`info`, `nano`), the term is that name, not a number.
+        Ok((rest, _))
+            if expr[..expr.len() - rest.len()].ends_with(|ch: char| ch.is_ascii_alphabetic())
+                && rest.starts_with(|ch: char| ch.is_ascii_alphabetic()) =>
+        {
+            Err(nom::Err::Error(format!("Error parsing f64 at '...{expr}'")))
+        }
         Ok((expr, c)) => Ok((expr, Expr::Const(T::from(c)))),
         _ => return Err(nom::Err::Error(format!("Error parsing f64 at '...{expr}'"))),
     }
